@@ -9,7 +9,11 @@
 (* fillers are ws characters only, the ws-parameter parser and the parser    *)
 (* of the same grammar with a LAYOUT rule matching runs of ws characters     *)
 (* give identical trees including node positions and layout_content, and    *)
-(* identical error positions.                                               *)
+(* identical error positions.  `junk` variants carry a whitespace-LIKE       *)
+(* character that is not in ws (form feed, no-break space, line separator): *)
+(* they are not layout variations (left out of the first statement), but    *)
+(* the ws-parameter parser and the LAYOUT-rule parser must still agree on   *)
+(* them -- both stop at that character.                                     *)
 (***************************************************************************)
 EXTENDS Naturals, Sequences, FiniteSets, TLC, Json, IOUtils
 Cases == JsonDeserialize(IOEnv.CASES_FILE)
@@ -23,12 +27,13 @@ ErrTok(v, pos) ==
   ELSE IF pos = v.endpos THEN Len(v.tokstart) + 1 ELSE 0
 \* an outcome up to layout: the result (positions stripped) or the exception class with the offending token
 Abstract(v, o) == IF o.kind = "ok" THEN <<"ok", o.res>> ELSE <<o.kind, o.cls, ErrTok(v, o.pos)>>
-Outcomes(field) == { Abstract(V[i], V[i][field]) : i \in DOMAIN V }
-WsOnly == { i \in DOMAIN V : V[i].wsonly }
+Plain == { i \in DOMAIN V : ~V[i].junk }
+Outcomes(field) == { Abstract(V[i], V[i][field]) : i \in Plain }
+WsOnly == { i \in DOMAIN V : V[i].wsonly \/ V[i].junk }
 Clauses ==
       (IF Cardinality(Outcomes("lr")) > 1 THEN {"C14:lr-outcome-depends-on-layout"} ELSE {})
  \cup (IF Cardinality(Outcomes("glr")) > 1 THEN {"C14:glr-outcome-depends-on-layout"} ELSE {})
- \cup (IF \E i \in DOMAIN V : \E f \in {"lr", "glr"} : V[i][f].kind = "exc" /\ V[i][f].cls = "SyntaxError" /\ ErrTok(V[i], V[i][f].pos) = 0
+ \cup (IF \E i \in Plain : \E f \in {"lr", "glr"} : V[i][f].kind = "exc" /\ V[i][f].cls = "SyntaxError" /\ ErrTok(V[i], V[i][f].pos) = 0
        THEN {"C14:error-position-not-at-a-token-start"} ELSE {})
  \cup (IF C.pair /\ \E i \in WsOnly : V[i].lr.full # V[i].lrL.full THEN {"C14:lr-ws-parameter-vs-layout-rule"} ELSE {})
  \cup (IF C.pair /\ \E i \in WsOnly : V[i].glr.full # V[i].glrL.full THEN {"C14:glr-ws-parameter-vs-layout-rule"} ELSE {})
